@@ -35,8 +35,9 @@ class PlannedRequest:
 
 
 class LinkModel:
-    def __init__(self, plan: List[PlannedRequest], policy: str = "late"):
+    def __init__(self, plan: List[PlannedRequest], policy: str = "late", partners: bool = True):
         self.plan = list(plan)
+        self.partners = partners     # model the remote half of every kept pair (needed by C10 only; it grows the state vector)
         self.policy = policy
         self.pipe = None
         self.ex: Optional[hc.MonitoredExecutor] = None
@@ -127,7 +128,10 @@ class LinkModel:
             phys = ex._get_unused_physical_qubit()
             partner = ("partner", self.n_partner)
             self.n_partner += 1
-            ex.sv.add_pair(("p", phys), partner, rq.BELL[p.bells[k]])
+            if self.partners:
+                ex.sv.add_pair(("p", phys), partner, rq.BELL[p.bells[k]])
+            else:
+                ex.sv.add(("p", phys))
             ex.inflight_phys.add(phys)
             p.partners.append(partner)
             p.phys.append(phys)
